@@ -378,6 +378,7 @@ impl Run {
                 .args([self.prop, tier])
                 .env("PV_SUB", "1")
                 .env("PV_VARIANT", name)
+                .env("PV_SELF", path)
                 .env("PV_VARIANTS", "")
                 .output();
             let out = match out {
@@ -525,7 +526,9 @@ impl Run {
     /// Spawns one worker per entry of `batch`; returns those that ended without a SUBRESULT.
     fn run_shard_batch(&mut self, n: u64, threads: usize, watchdog_s: u64, cur_dir: Option<&PathBuf>, batch: &[(u64, u64, u32)]) -> Vec<(u64, u64, u32, String)> {
         let mut died = vec![];
-        let exe = match std::env::current_exe() {
+        // PV_SELF (set by the driver / by run_variants) survives a rebuild that replaces the file this
+        // process was started from; current_exe() would then point at a deleted inode.
+        let exe = match std::env::var("PV_SELF").ok().map(PathBuf::from).filter(|p| p.exists()).map(Ok).unwrap_or_else(std::env::current_exe) {
             Ok(e) => e,
             Err(e) => {
                 self.inconclusive(&format!("cannot find own executable: {e}"));
